@@ -14,7 +14,7 @@ RULE = ("exhaustive over forms: every mnemonic pdpy11 accepts (cross-checked wit
         "ac0-ac5 / ac0-ac3; every value of every inline field with both rejected neighbours); random over values: 5-40 instruction "
         "programs with drawn operand values (16-bit boundaries), literal or symbolic spelling (defined before or after use), "
         "labels, link bases and number/register spellings, one program in four standing in an included or second linked file "
-        "that starts at a non-zero offset; names: every mnemonic next to a constant or label of the same name, and every branch "
+        "that starts at a non-zero offset; cli: character-literal operands under every --charset through the command line; names: every mnemonic next to a constant or label of the same name, and every branch "
         "mnemonic to numeric local labels (also names with the digits 8 and 9, with decoy labels). Oracle: R1 encoder bytes == image AND R1 decoder(image) == generated "
         "operation. Non-trivial: instruction with >= 1 operand or inline field; distinct by (mnemonic, operand forms) in the "
         "exhaustive part and by program text in the random part.")
@@ -86,6 +86,7 @@ def shards(tier):
         specs.append({"part": "double", "mn": m, "frac": frac})
     specs.append({"part": "inline"})
     specs.append({"part": "tables"})
+    specs.append({"part": "cli"})
     specs.append({"part": "names", "half": 0})
     specs.append({"part": "names", "half": 1})
     k = 16
@@ -175,6 +176,14 @@ def single_case(mn, ops, base):
 def replay(case):
     if case["kind"] in ("expect", "equiv"):
         return oracle.replay_generic(case)
+    if case["kind"] == "cli-charset":
+        charset, ch = case["charset"], case["ch"]
+        byte = ch.encode(charset if charset != "bk" else "koi8-r")[0]
+        src = f"\tmov #'{ch}, r0\n"
+        with driver.Scratch({"prog.mac": src}) as sc:
+            res = driver.run_cli(sc, ["prog.mac", "-o", "prog.raw", "--charset", charset])
+            got = sc.read("prog.raw") if "prog.raw" in res.after else None
+        return [] if res.status == 0 and got == struct.pack("<HH", 0o012700, byte) else [(f"cli:charset:{charset}", f"{src!r}: exit {res.status}, image {got.hex() if got else None}")]
     if case["kind"] == "prog":
         return replay_prog(case)
     insns = [(mn, [tuple(o) for o in ops]) for mn, ops in case["insns"]]
@@ -299,6 +308,24 @@ def run_shard(spec, ctx):
             case = {"kind": "equiv", "variants": variants}
             for sg, msg in oracle.check_equiv(case, prefix="synonym:"):
                 ctx.fail(sg + ":" + canon, msg, case)
+    elif part == "cli":
+        # the command line is part of "what was written": character-literal operands under every --charset, through the real entry
+        # point (the value of 'c is the character's byte in the selected charset)
+        import os
+        chars = {"bk": "aяЖ", "koi8-r": "aяЖ", "cp866": "aяЖ", "latin-1": "aéÿ", "utf-8": "a~"}
+        for charset, pool in chars.items():
+            for ch in pool:
+                byte = ch.encode(charset if charset != "bk" else "koi8-r")[0]
+                src = f"\tmov #'{ch}, r0\n\tcmpb #'{ch}', (r1)+\n\tmov '{ch}(r2), @#'{ch}\n\t.word '{ch}\n"
+                want = b"".join(struct.pack("<H", w) for w in (0o012700, byte, 0o122721, byte, 0o016237, byte, byte, byte))
+                for argv_cs in ([["--charset", charset]] + ([[]] if charset == "bk" else [])):
+                    with driver.Scratch({"prog.mac": src}) as sc:
+                        res = driver.run_cli(sc, ["prog.mac", "-o", "prog.raw"] + argv_cs)
+                        got = sc.read("prog.raw") if "prog.raw" in res.after else None
+                    ctx.case((charset, ch, bool(argv_cs)), True, ["cli-charset-" + charset], sample=f"--charset {charset}: mov #'{ch}, r0" if ch != "a" and argv_cs else None)
+                    if res.status != 0 or got != want:
+                        ctx.fail(f"cli:charset:{charset}", f"pdpy11 prog.mac -o prog.raw {' '.join(argv_cs)} on {src!r}: exit {res.status}, image {got.hex() if got else None}, "
+                                 f"expected {want.hex()}\n{res.stderr.decode('utf-8', 'replace')[-300:]}", {"kind": "cli-charset", "charset": charset, "ch": ch})
     elif part == "names":
         # (a) a symbol that carries the name of a mnemonic (constant before / label before / constant after the use) does not
         # change what the mnemonic assembles to; (b) branches to numeric local labels, also names with the digits 8 and 9
